@@ -74,8 +74,10 @@ Definition drop_while_right (f : N -> bool) (b : bytes) : bytes := rev (drop_whi
 (* trim: leading then trailing SP/HT *)
 Definition trim (s : bytes) : bytes := drop_while_right is_sp_ht (drop_while is_sp_ht s).
 Definition trimTrailingSpace (s : bytes) : bytes := drop_while_right is_sp_ht s.
-(* stripSpace (header.go): SP only *)
-Definition stripSpace (s : bytes) : bytes := drop_while_right is_sp (drop_while is_sp s).
+(* stripSpace (header.go): SP and HTAB at both ends of a list element (since c40b715) *)
+Definition stripSpace (s : bytes) : bytes := drop_while_right is_sp_ht (drop_while is_sp_ht s).
+(* SP only, both ends: cookie.go decodeCookieArg's trimming *)
+Definition stripSP (s : bytes) : bytes := drop_while_right is_sp (drop_while is_sp s).
 
 Definition isASCIILetter (b : N) : bool :=
   let b' := N.lor b 32 in (N.leb 97 b') && (N.leb b' 122).
